@@ -199,7 +199,11 @@ func (ft *funcTrans) loopHeader(li *loopInfo, fwdPreds []*ssa.BasicBlock, merged
 				t := ec.evalBool(inv.E)
 				saved := ft.reach[b]
 				ft.reach[b] = edge
-				ft.obligation("invariant", fmt.Sprintf("loop%d.inv%d.entry", li.ordinal, k+1), inv.Src, t.S)
+				nm := fmt.Sprintf("loop%d.inv%d.entry", li.ordinal, k+1)
+				if len(fwdPreds) > 1 {
+					nm += fmt.Sprintf("@b%d", p.Index)
+				}
+				ft.obligation("invariant", nm, inv.Src, t.S)
 				ft.reach[b] = saved
 			}
 		}
@@ -213,7 +217,11 @@ func (ft *funcTrans) loopHeader(li *loopInfo, fwdPreds []*ssa.BasicBlock, merged
 				if g := ft.frameGoal(pst, h); g != "" {
 					saved := ft.reach[b]
 					ft.reach[b] = edge
-					ft.obligation("frame", fmt.Sprintf("loop%d.frame.%s.entry", li.ordinal, h), "loop keeps "+h+" within the assigns clause", g)
+					nm := fmt.Sprintf("loop%d.frame.%s.entry", li.ordinal, h)
+				if len(fwdPreds) > 1 {
+					nm += fmt.Sprintf("@b%d", p.Index)
+				}
+				ft.obligation("frame", nm, "loop keeps "+h+" within the assigns clause", g)
 					ft.reach[b] = saved
 				}
 			}
@@ -416,12 +424,30 @@ func (ft *funcTrans) instrMods(in ssa.Instruction, li *loopInfo) {
 		if (c == nil || !c.HasAssigns) && callee != nil && ft.p.writesOnlyFresh(callee) {
 			return
 		}
-		if c == nil || !c.HasAssigns {
+		if c != nil && len(c.Preserves) > 0 {
+			for _, h := range ft.allHeaps() {
+				if !preservedHeap(h, c.Preserves) {
+					li.modHeaps[h] = true
+				}
+			}
+			if !c.HasAssigns {
+				return
+			}
+		} else if c == nil || !c.HasAssigns {
 			li.modAll = true
 			return
 		}
 		for _, a := range c.Assigns {
 			for _, h := range ft.designatorHeaps(a.E, callee, com) {
+				if h == "?opaque" {
+					// the field heap of the opaque pointer argument(s)
+					for _, arg := range com.Args {
+						if fa, ok := arg.(*ssa.FieldAddr); ok {
+							ft.addrMods(fa, li)
+						}
+					}
+					continue
+				}
 				li.modHeaps[h] = true
 			}
 		}
@@ -639,6 +665,16 @@ func (ft *funcTrans) namesAt(b *ssa.BasicBlock) map[string]Term {
 		env[k] = v
 	}
 	if b != nil {
+		// ghost iteration counter of the innermost loop containing b
+		var inner *loopInfo
+		for _, li := range ft.loopList {
+			if li.body[b] && (inner == nil || len(li.body) < len(inner.body)) {
+				inner = li
+			}
+		}
+		if inner != nil {
+			env["#iter"] = ft.w.declConst(fmt.Sprintf("iter!loop%d", inner.ordinal), ft.w.goInt())
+		}
 		for _, in := range b.Instrs {
 			switch x := in.(type) {
 			case *ssa.Phi:
